@@ -65,6 +65,59 @@ def check(run, prog, tier):
                        "a quadrature routine given x= or dx= (one without integrates with unit spacing, the rate is off by 1/step)",
              minimum=30)
     rule_R9(run, prog)
+    run.rule("C06-R10", "the Matsubara series of the Brownian-oscillator correlation function is summed completely (a skipped term "
+                        "is skipped by a two-sided resonance test only)", minimum=1)
+    rule_R10(run, prog)
+
+
+def rule_R10(run, prog):
+    """'C(-w) = exp(-w/kT) C(w)' for the analytical Brownian-oscillator function rests on the Matsubara series of its real
+    part: sum over n = 1..N of nu_n exp(-nu_n t) / (nu_n^2 - 1/tau^2), all N terms - those with nu_n < 1/tau (cold, fast
+    baths) have negative denominators and are the ones that compensate the cotangent prefactor.  In _matsubara the
+    accumulation into the sum is executed in every pass of the loop; a condition around it (or a `continue` before it)
+    is accepted only as a two-sided resonance test, i.e. a comparison of abs(...) with a tolerance.  A one-sided
+    `nu_n - 1/tau < tol` drops every term below the relaxation rate."""
+    rid = "C06-R10"
+    f = prog.func("quantarhei.qm.corfunctions.correlationfunctions.CorrelationFunction._matsubara")
+    prog.consulted.add(f.relpath)
+    loops = [x for x in walk_no_nested(f.node) if isinstance(x, ast.For)]
+    ret = [x for x in walk_no_nested(f.node) if isinstance(x, ast.Return) and x.value is not None]
+    if len(loops) != 1 or not ret:
+        raise AnalysisError("_matsubara: one loop over the Matsubara frequencies and a returned sum expected")
+    acc = norm(ret[0].value)
+    lp = loops[0]
+    pm = parents_map(f.node)
+    adds = [x for x in ast.walk(lp) if isinstance(x, ast.AugAssign) and isinstance(x.op, ast.Add) and norm(x.target) == acc]
+    if not adds:
+        raise AnalysisError("_matsubara: no accumulation into %s inside the loop" % acc)
+
+    def two_sided(t_):
+        return isinstance(t_, ast.Compare) and any(isinstance(y, ast.Call) and (call_name(y) or "").split(".")[-1] in ("abs", "absolute", "fabs", "isclose")
+                                                   for y in ast.walk(t_))
+    for a_ in adds:
+        conds = []
+        node = a_
+        while node is not lp:
+            par = pm.get(node)
+            if isinstance(par, ast.If):
+                conds.append(par.test)
+            node = par
+        # `continue` statements earlier in the loop body
+        for st in lp.body:
+            if st.lineno >= a_.lineno:
+                break
+            for y in ast.walk(st):
+                if isinstance(y, ast.Continue):
+                    c_ = pm.get(y)
+                    while c_ is not None and not isinstance(c_, ast.If):
+                        c_ = pm.get(c_)
+                    conds.append(c_.test if c_ is not None else ast.Constant(value=True))
+        bad = [c for c in conds if not two_sided(c)]
+        run.obligation(rid, f.short, not bad, key="every-term-added",
+                       message="the Matsubara sum skips terms under `%s`: this is not a two-sided resonance test (no modulus), so "
+                               "every frequency on one side of the relaxation rate is left out - for 2 pi kT tau < 1 the real part of "
+                               "C(t) is wrong and the bath violates C(-w) = exp(-w/kT) C(w)" % (norm(bad[0])[:60] if bad else ""),
+                       loc=f.loc(bad[0]) if bad else f.loc(a_), sample={"conditions": [norm(c)[:60] for c in conds]})
 
 
 QUAD = ("trapz", "trapezoid", "cumtrapz", "cumulative_trapezoid", "simps", "simpson", "cumulative_simpson", "romb")
